@@ -4,7 +4,7 @@
 ``TextIOWrapper(BufferedWriter|BufferedReader(SimRaw))`` so that buffering,
 encoding, newline translation and close/flush semantics are the stdlib's; only
 the raw device is simulated.  ``SimRaw`` consults one *armed fault* (a dict)
-at every raw call.  Paths handled here start with ``sim:/``; anything else
+at every raw call.  Paths handled here start with ``/simfs/``; anything else
 falls through to the builtin ``open`` (never used by the machines).
 
 Fault kinds at this layer (DESIGN 2.3):
@@ -20,8 +20,31 @@ import os
 
 from .core import SimCrash
 
-PREFIX = "sim:/"
+PREFIX = "/simfs/"          # an absolute, normal, non-URL-looking path: survives abspath/realpath/urlparse untouched
 FAKE_FD = [1 << 24]
+_REAL_OPEN = builtins.open
+_OS_NAMES = ("sendfile", "open", "stat", "lstat", "replace", "rename", "remove", "unlink", "fsync", "close", "write", "makedirs", "mkdir",
+             "access", "listdir", "scandir", "truncate", "ftruncate")
+_PATH_NAMES = ("exists", "isfile", "isdir", "getsize", "getmtime", "lexists", "samefile")
+_REAL_OS = {n: getattr(os, n) for n in _OS_NAMES}
+_REAL_PATH = {n: getattr(os.path, n) for n in _PATH_NAMES}
+
+
+class _RealOs:
+    """The os module as it was before any seam was installed (the shims fall back to it, never to themselves)."""
+    path = None
+
+    def __getattr__(self, name):
+        return _REAL_OS[name] if name in _REAL_OS else getattr(os, name)
+
+
+class _RealPath:
+    def __getattr__(self, name):
+        return _REAL_PATH[name] if name in _REAL_PATH else getattr(os.path, name)
+
+
+REAL_OS = _RealOs()
+REAL_OS.path = _RealPath()
 
 
 def is_sim(path):
@@ -47,6 +70,11 @@ class SimDisk:
         import hashlib
         import types
         if path not in self.files:
+            k = path.rstrip("/")
+            if "." not in k.rsplit("/", 1)[-1] or any(f.startswith(k + "/") for f in self.files):
+                return types.SimpleNamespace(st_size=4096, st_mtime_ns=self._clock, st_mtime=self._clock / 1e9, st_mode=0o040755,
+                                             st_ctime_ns=self._clock, st_ctime=self._clock / 1e9, st_atime_ns=self._clock,
+                                             st_atime=self._clock / 1e9, st_ino=1, st_dev=1, st_nlink=2, st_uid=0, st_gid=0)
             raise FileNotFoundError(errno.ENOENT, "No such file or directory", path)
         data = bytes(self.files[path])
         h = hashlib.sha256(data).digest()
@@ -67,6 +95,7 @@ class SimRaw(io.RawIOBase):
     def __init__(self, fs, path, mode):
         super().__init__()
         self.fs, self.path, self.mode = fs, path, mode
+        self.name = path
         self.pos = 0
         self.calls = 0
         self.dead = False
@@ -171,6 +200,7 @@ class SimFS:
         self.written = {}          # path -> bytes taken since last arm()/reset
         self.opens = []            # (path, mode) history, for oracles
         self.fds = {}              # fake descriptors handed out by OsProxy.open
+        self.fd_pos = {}           # write position of descriptors used with os.write
 
     # fault plan ---------------------------------------------------------
     def arm(self, fault):
@@ -207,7 +237,7 @@ class SimFS:
             path, flags = self.fds.pop(file)
             return self._open_path(path, mode, encoding, errors, newline, no_truncate=True)
         if not is_sim(file):
-            return builtins.open(file, mode, buffering, encoding, errors, newline, closefd, opener)
+            return _REAL_OPEN(file, mode, buffering, encoding, errors, newline, closefd, opener)
         return self._open_path(as_key(file), mode, encoding, errors, newline)
 
     def _open_path(self, file, mode, encoding=None, errors=None, newline=None, no_truncate=False):
@@ -217,7 +247,9 @@ class SimFS:
         if no_truncate and "w" in core:
             core += "n"
         raw = SimRaw(self, file, core)
-        if any(c in core for c in "wa"):
+        if "+" in core:
+            buf = io.BufferedRandom(raw)
+        elif any(c in core for c in "wa"):
             buf = io.BufferedWriter(raw)
         else:
             buf = io.BufferedReader(raw)
@@ -243,13 +275,21 @@ class OsPathProxy:
     def __getattr__(self, name):
         return getattr(self._real, name)
 
-    def exists(self, p):
-        return as_key(p) in self._fs.disk.files if is_sim(p) else self._real.exists(p)
-
-    isfile = exists
+    def isfile(self, p):
+        return as_key(p) in self._fs.disk.files if is_sim(p) else self._real.isfile(p)
 
     def isdir(self, p):
-        return False if is_sim(p) else self._real.isdir(p)
+        # directories of the simulated disk exist implicitly (a name without a suffix that is not a file)
+        if not is_sim(p):
+            return self._real.isdir(p)
+        k = as_key(p).rstrip("/")
+        return k not in self._fs.disk.files and ("." not in k.rsplit("/", 1)[-1] or
+                                                   any(f.startswith(k + "/") for f in self._fs.disk.files))
+
+    def exists(self, p):
+        return (self.isfile(p) or self.isdir(p)) if is_sim(p) else self._real.exists(p)
+
+    lexists = exists
 
     def getsize(self, p):
         return self._fs.disk.stat(as_key(p)).st_size if is_sim(p) else self._real.getsize(p)
@@ -257,7 +297,7 @@ class OsPathProxy:
     def getmtime(self, p):
         return self._fs.disk.stat(as_key(p)).st_mtime if is_sim(p) else self._real.getmtime(p)
 
-    def _same(self, p):                       # sim:/ paths are already absolute, normal and real
+    def _same(self, p):                       # /simfs/ paths are already absolute, normal and real
         return as_key(p)
 
     def abspath(self, p):
@@ -276,12 +316,12 @@ class OsPathProxy:
 class OsProxy:
     """Stands in for the ``os`` global of a patched module so that the usual 'durable save' idioms
     (os.open + os.fdopen, write to a temporary name + os.replace, os.fsync, os.remove) act on the
-    simulated disk for sim:/ paths.  Everything else passes through to the real os module."""
+    simulated disk for /simfs/ paths.  Everything else passes through to the real os module."""
 
     def __init__(self, real_os, fs):
-        object.__setattr__(self, "_os", real_os)
+        object.__setattr__(self, "_os", REAL_OS)
         object.__setattr__(self, "_fs", fs)
-        object.__setattr__(self, "path", OsPathProxy(real_os.path, fs))
+        object.__setattr__(self, "path", OsPathProxy(REAL_OS.path, fs))
         object.__setattr__(self, "_next", [1 << 20])
 
     def __getattr__(self, name):
@@ -290,6 +330,7 @@ class OsProxy:
     def open(self, path, flags, mode=0o777, *a, **k):
         if not is_sim(path):
             return self._os.open(path, flags, mode, *a, **k)
+        path = as_key(path)
         files = self._fs.disk.files
         if path not in files:
             if not flags & self._os.O_CREAT:
@@ -329,6 +370,7 @@ class OsProxy:
 
     def replace(self, src, dst, *a, **k):
         if is_sim(src) and is_sim(dst):
+            src, dst = as_key(src), as_key(dst)
             files = self._fs.disk.files
             if src not in files:
                 raise FileNotFoundError(errno.ENOENT, "No such file or directory", src)
@@ -340,6 +382,7 @@ class OsProxy:
 
     def remove(self, path, *a, **k):
         if is_sim(path):
+            path = as_key(path)
             if path not in self._fs.disk.files:
                 raise FileNotFoundError(errno.ENOENT, "No such file or directory", path)
             del self._fs.disk.files[path]
@@ -348,10 +391,52 @@ class OsProxy:
 
     unlink = remove
 
+    def write(self, fd, data):
+        if fd in self._fs.fds:                          # os.open + os.write + os.close on a simulated file
+            path, flags = self._fs.fds[fd]
+            buf = self._fs.disk.files[path]
+            pos = self._fs.fd_pos.get(fd, len(buf) if flags & self._os.O_APPEND else 0)
+            buf[pos:pos + len(data)] = bytes(data)
+            self._fs.fd_pos[fd] = pos + len(data)
+            return len(data)
+        return self._os.write(fd, data)
+
+    def sendfile(self, out_fd, in_fd, *a, **k):
+        if max(out_fd, in_fd) >= (1 << 20):             # no zero-copy between simulated files: callers fall back to read/write
+            raise OSError(errno.ENOTSOCK, "sendfile on a simulated file")
+        return self._os.sendfile(out_fd, in_fd, *a, **k)
+
+    def makedirs(self, path, *a, **k):
+        return None if is_sim(path) else self._os.makedirs(path, *a, **k)
+
+    def mkdir(self, path, *a, **k):
+        return None if is_sim(path) else self._os.mkdir(path, *a, **k)
+
+    def access(self, path, mode, *a, **k):
+        if is_sim(path):
+            return as_key(path) in self._fs.disk.files or not as_key(path).rsplit("/", 1)[-1].count(".")
+        return self._os.access(path, mode, *a, **k)
+
+    def listdir(self, path="."):
+        if is_sim(path):
+            d = as_key(path).rstrip("/") + "/"
+            return sorted({k[len(d):].split("/", 1)[0] for k in self._fs.disk.files if k.startswith(d)})
+        return self._os.listdir(path)
+
+    def truncate(self, path, length):
+        if isinstance(path, int) and path in self._fs.fds:
+            path = self._fs.fds[path][0]
+        if is_sim(path):
+            del self._fs.disk.files[as_key(path)][length:]
+            return None
+        return self._os.truncate(path, length)
+
+    ftruncate = truncate
+
 
 class NpProxy:
     """Stands in for the ``np`` global of hvsrpy.object_io: everything passes
-    through, except that savetxt/loadtxt on a sim:/ path are handed an open
+    through, except that savetxt/loadtxt on a /simfs/ path are handed an open
     SimFS file object (the real numpy formatter/parser does the work)."""
 
     def __init__(self, real_np, fs):
@@ -394,6 +479,24 @@ class Patched:
         for m in self.npm:
             self.saved.append((m, "np", m.__dict__.get("np", _MISSING)))
             m.np = NpProxy(m.__dict__["np"], self.fs)
+        # ... and the same seams process-wide, for code that reaches the disk through another module (pathlib, json,
+        # tempfile, shutil, numpy's DataSource, pandas ...): builtins.open / io.open and the os functions act on the
+        # simulated disk for /simfs/ paths and fall through to the captured real functions for everything else
+        import io as _io
+        import os as _os_mod
+        proxy = OsProxy(_os_mod, self.fs)
+        for mod, name, val in [(builtins, "open", self.fs.open), (_io, "open", self.fs.open)] + \
+                [(_os_mod, n, getattr(proxy, n)) for n in _OS_NAMES if n != "scandir"] + \
+                [(_os_mod.path, n, getattr(proxy.path, n)) for n in _PATH_NAMES if hasattr(OsPathProxy, n)]:
+            self.saved.append((mod, name, getattr(mod, name)))
+            setattr(mod, name, val)
+        try:
+            fo = __import__("numpy").lib._datasource._file_openers
+            fo._load()
+            self.saved.append((_DictItem(fo._file_openers, None), "value", fo._file_openers[None]))
+            fo._file_openers[None] = self.fs.open
+        except Exception:                       # noqa  (numpy internals moved: the NpProxy seam still serves object_io)
+            pass
         try:                                    # advisory locks on simulated files always succeed at once (one process)
             import fcntl as _fcntl
             for name in ("flock", "lockf"):
@@ -418,6 +521,17 @@ class Patched:
 
 
 _MISSING = object()
+
+
+class _DictItem:
+    """setattr(obj, 'value', v) stores into a dict entry (so that Patched.__exit__ can restore it like an attribute)."""
+
+    def __init__(self, d, k):
+        object.__setattr__(self, "_d", d)
+        object.__setattr__(self, "_k", k)
+
+    def __setattr__(self, name, v):
+        self._d[self._k] = v
 
 
 def _lock_shim(real):
